@@ -1079,7 +1079,6 @@ func enclosingVarName(f *ast.File, lit ast.Node) string {
 	return "?"
 }
 
-
 // rendersEverything (clause of IDENT-1): the canonical rendering is also the identity by which union / intersect / diff
 // recognise an element (valSetOf keys by String()), and the text string() returns. It can only be injective on composite
 // values if it renders *every* element: in the list, map and object arms of the renderers every loop that renders
